@@ -8,7 +8,7 @@ from ..consteval import get_folder, Unfoldable, EnumRef
 from ..cfg import CFG, paths, PathExplosion, default_transfer
 from ..finite import (eval_guard, flag_valuation, order_valuation, run_block, Undecided, cmp_regions, region_table,
                       evaluated_atoms, merge_valuations)
-from ..shapes import bind_call
+from ..shapes import bind_call, subst
 from .P import _parents, _path_text
 
 
@@ -20,247 +20,415 @@ def _fold_is(F, node, value):
 
 
 @rule('P2', 'token-conservation: whatever the tokenizer\'s cursor steps over is stored (text, parameters, final byte) and a CSI is '
-            'either recorded or put back whole', floor=7)
+            'either recorded or put back whole', floor=5)
 def P2(m, R):
+    """One iteration of the scan loop is executed symbolically on every path (inner scan 0, 1, 2 steps): the cursor is a linear form over
+    its value c at the start of the iteration, every string local is a list of pieces -- slices s[lo:hi] of the input, or the CSI
+    constant.  At the end of the iteration the pieces added to the text, or handed to the recorded sequence, must tile exactly
+    [c, cursor) in order; every read s[k] must be covered by a `k < len(s)` test on the path."""
     F = get_folder(m)
+    from .P_more import Sym, _sym_eval
+    from ..shapes import local_aliases, canon
     f = m.fn('ParsedAnsiControlSequenceString.__init__')
     s = f.own_params()[0]
     allow, acc = f.own_params()[1:3]
     outer = next((n for n in f.body if isinstance(n, ast.While)), None)
     if outer is None:
         raise AnalysisError('anchor vanished: tokenizer scan loop')
-    # cursor: the variable compared with len(s) in the loop test
+    ali = local_aliases(f)
+
+    def cn(e):
+        return canon(e, ali)
+    LEN = 'len(%s)' % s
     t = outer.test
     cur = None
-    if isinstance(t, ast.Compare) and norm(t.comparators[0]) == 'len(%s)' % s and isinstance(t.left, ast.Name):
+    if isinstance(t, ast.Compare) and len(t.ops) == 1 and cn(t.comparators[0]) == LEN and isinstance(t.left, ast.Name):
         cur = t.left.id
     if cur is None:
         R.undecided(f, outer, 'scan loop test %s' % short(t), construct='scan loop')
         return
     regs = cmp_regions(t.ops[0])
     R.check(regs == {'<'}, f, outer, 'scan runs while %s < len(%s)' % (cur, s), 'scan runs while %s' % short(t), construct='scan loop')
-    si = '%s[%s]' % (s, cur)
-    text_attr = None
-    from ..shapes import local_aliases, canon
-    ali = local_aliases(f)
-    cfg = CFG(f.node, f.body)
-    head = cfg.loop_of[outer]
 
-    def transfer(node, env):
-        default_transfer(node, env)
-        st = node.stmt
-        if node.kind != 'stmt' or st is None:
+    pre = f.body[:f.body.index(outer)]
+    pre_strs, pre_ints = set(), set()
+    for st_ in pre:
+        if isinstance(st_, ast.Assign) and len(st_.targets) == 1:
+            if isinstance(st_.value, ast.Constant) and st_.value.value == '':
+                pre_strs.add(norm(st_.targets[0]))
+            elif isinstance(st_.value, ast.Constant) and isinstance(st_.value.value, int) and not isinstance(st_.value.value, bool) and isinstance(st_.targets[0], ast.Name) \
+                    and norm(st_.targets[0]) != cur:
+                pre_ints.add(st_.targets[0].id)
+
+    def is_csi(e):
+        return _fold_is(F, subst(e, ali) if not isinstance(e, str) else e, '\x1b[')
+    LC = Sym({'LCSI': 1})
+
+    class Bad(Exception):
+        pass
+    results = []         # (state, how)  how in 'next' (back at the loop head), 'exit'
+    reads_unguarded = []
+
+    def ival(e, st):
+        """integer expression over the cursor"""
+        e2 = subst(e, {k_: v_ for k_, v_ in ali.items() if k_ not in st['ints'] and k_ != cur})
+        if isinstance(e2, ast.Name):
+            if e2.id == cur:
+                return st['cur']
+            if e2.id in st['ints']:
+                return st['ints'][e2.id]
+            if e2.id in pre_ints:
+                return Sym({'K:' + e2.id: 1})          # a counter kept across iterations: its value at the start of this one
+            raise Undecided('integer %s' % e2.id)
+        if isinstance(e2, ast.Call) and call_name(e2) == 'len' and len(e2.args) == 1 and isinstance(e2.func, ast.Name) and not is_csi(e2.args[0]) and \
+                (norm(e2.args[0]) in st['strs'] or norm(e2.args[0]) in pre_strs):
+            return plen(sval(e2.args[0], st, e2))
+        if isinstance(e2, ast.Constant) and isinstance(e2.value, int) and not isinstance(e2.value, bool):
+            return Sym(c=e2.value)
+        if isinstance(e2, ast.Call) and call_name(e2) == 'len' and len(e2.args) == 1 and is_csi(e2.args[0]):
+            return LC
+        if isinstance(e2, ast.BinOp) and isinstance(e2.op, (ast.Add, ast.Sub)):
+            a_, b_ = ival(e2.left, st), ival(e2.right, st)
+            return a_ + b_ if isinstance(e2.op, ast.Add) else a_ - b_
+        raise Undecided('integer expression %s' % short(e))
+
+    def plen(pieces):
+        tot = Sym(c=0)
+        for p_ in pieces:
+            tot = tot + (LC if p_ == ('CSI',) else Sym({'T:' + p_[1]: 1}) if p_[0] == 'BASE' else (p_[2] - p_[1]))
+        return tot
+
+    def sval(e, st, node):
+        """string expression -> list of pieces"""
+        if isinstance(e, ast.Constant) and e.value == '':
+            return []
+        if isinstance(e, ast.Name) and e.id in st['strs']:
+            return list(st['strs'][e.id])
+        if isinstance(e, ast.Name) and e.id in pre_strs:
+            return [('BASE', e.id)]
+        if is_csi(e):
+            return [('CSI',)]
+        if isinstance(e, ast.Attribute) and norm(e) in st['strs']:
+            return list(st['strs'][norm(e)])
+        if isinstance(e, ast.Attribute) and norm(e) in pre_strs:
+            return [('BASE', norm(e))]            # what the attribute held when the iteration began
+        if isinstance(e, ast.BinOp) and isinstance(e.op, ast.Add):
+            return sval(e.left, st, node) + sval(e.right, st, node)
+        if isinstance(e, ast.Subscript) and norm(e.value) == s:
+            if isinstance(e.slice, ast.Slice):
+                if e.slice.step is not None:
+                    raise Undecided('slice %s' % short(e))
+                lo = ival(e.slice.lower, st) if e.slice.lower is not None else Sym(c=0)
+                if e.slice.upper is None:
+                    raise Undecided('open slice %s' % short(e))
+                return [('S', lo, ival(e.slice.upper, st))]
+            k_ = ival(e.slice, st)
+            if k_.key() not in st['lt_len']:
+                reads_unguarded.append((node, short(e)))
+            return [('S', k_, k_ + Sym(c=1))]
+        raise Undecided('string expression %s' % short(e))
+
+    def clone(st):
+        c = dict(st)
+        for k_ in ('ints', 'strs'):
+            c[k_] = dict(st[k_])
+        c['lt_len'] = set(st['lt_len'])
+        c['text'] = list(st['text'])
+        c['records'] = list(st['records'])
+        c['loops'] = dict(st['loops'])
+        return c
+    text_names = set()
+
+    def truth(t_, st):
+        """what a test tells: returns None (unknown -> both ways); records facts through `learn`"""
+        return None
+
+    def struth(t_, st):
+        """truthiness of a string local whose pieces are known: non-empty iff it holds at least one input character / the introducer"""
+        if isinstance(t_, ast.UnaryOp) and isinstance(t_.op, ast.Not):
+            v_ = struth(t_.operand, st)
+            return None if v_ is None else not v_
+        if isinstance(t_, ast.Name) and t_.id in st['strs'] and t_.id not in pre_strs:
+            pcs = st['strs'][t_.id]
+            if not pcs:
+                return False
+            if any(p_ == ('CSI',) or (p_[0] == 'S' and (p_[2] - p_[1]) == Sym(c=1)) for p_ in pcs):
+                return True
+        return None
+
+    def learn(t_, outcome, st):
+        if isinstance(t_, ast.BoolOp):
+            if isinstance(t_.op, ast.And) and outcome:
+                for v_ in t_.values:
+                    learn(v_, True, st)
+            if isinstance(t_.op, ast.Or) and not outcome:
+                for v_ in t_.values:
+                    learn(v_, False, st)
             return
-        ev = env.get('#ev', ())
-        if isinstance(st, ast.AugAssign) and isinstance(st.op, ast.Add):
-            tg = norm(st.target)
-            if tg == cur:
-                ev += (('step', norm(st.value), st.lineno),)
-            elif norm(st.value) == si:
-                ev += (('store', tg, st.lineno),)
-            else:
-                parts = [norm(p) for p in flatten_add(st.value)]
-                ev += (('concat', tg, tuple(parts), st.lineno),)
-        elif isinstance(st, ast.Assign):
-            tg = norm(st.targets[0])
-            if norm(st.value) == si:
-                ev += (('store', tg, st.lineno),)
-            elif isinstance(st.value, ast.Call) and call_name(st.value) == 'AnsiControlSequence':
-                ev += (('record', tg, tuple(norm(a) for a in st.value.args), st.lineno),)
-            elif any(isinstance(x, ast.Call) and call_name(x) == 'AnsiControlSequence' for x in ast.walk(st.value)):
-                ev += (('record', tg, (), st.lineno),)
-            elif isinstance(st.value, ast.List) and len(st.value.elts) == 1 and isinstance(st.targets[0], ast.Subscript):
-                ev += (('keep', norm(st.targets[0].value), norm(st.targets[0].slice), norm(st.value.elts[0]), st.lineno),)
-            elif tg == cur:
-                ev += (('jump', norm(st.value), st.lineno),)
-        elif isinstance(st, ast.Expr) and isinstance(st.value, ast.Call) and call_name(st.value) == 'append' and isinstance(st.value.func.value, ast.Subscript):
-            c = st.value
-            ev += (('keep', norm(c.func.value.value), norm(c.func.value.slice), norm(c.args[0]), st.lineno),)
-        env['#ev'] = ev
+        if isinstance(t_, ast.UnaryOp) and isinstance(t_.op, ast.Not):
+            learn(t_.operand, not outcome, st)
+            return
+        if isinstance(t_, ast.Compare) and len(t_.ops) == 1:
+            l_, r_, op = t_.left, t_.comparators[0], t_.ops[0]
+            # k < len(s)
+            if cn(r_) == LEN and isinstance(op, (ast.Lt, ast.GtE)):
+                try:
+                    k_ = ival(l_, st)
+                except Undecided:
+                    return
+                if (isinstance(op, ast.Lt) and outcome) or (isinstance(op, ast.GtE) and not outcome):
+                    st['lt_len'].add(k_.key())
+                return
+            # s[a:b] == CSI
+            for x_, y_ in ((l_, r_), (r_, l_)):
+                if is_csi(y_) and isinstance(x_, ast.Subscript) and isinstance(x_.slice, ast.Slice) and norm(x_.value) == s and isinstance(op, (ast.Eq, ast.NotEq)):
+                    try:
+                        lo = ival(x_.slice.lower, st)
+                        hi = ival(x_.slice.upper, st)
+                    except Undecided:
+                        return
+                    if (hi - lo) == LC and ((isinstance(op, ast.Eq) and outcome) or (isinstance(op, ast.NotEq) and not outcome)):
+                        st['csi_at'].add(lo.key())
+                    return
+            if isinstance(x_ := l_, ast.Call) and call_name(l_) == 'startswith':
+                return
+        if isinstance(t_, ast.Call) and call_name(t_) == 'startswith' and isinstance(t_.func, ast.Attribute) and norm(t_.func.value) == s and len(t_.args) == 2 and \
+                is_csi(t_.args[0]) and outcome:
+            try:
+                st['csi_at'].add(ival(t_.args[1], st).key())
+            except Undecided:
+                pass
 
-    body_first = [n for l, n in head.succ if l is True]
-    if not body_first:
-        raise AnalysisError('tokenizer loop has no body')
-    try:
-        ps = paths(cfg, body_first[0], lambda nd: nd is head, transfer=transfer, max_visits=2, limit=300000)
-    except PathExplosion as e:
-        R.undecided(f, outer, str(e), construct='scan paths')
-        return
-    csi_len = None
-    unstored, bad_csi = [], []
-    param_acc = term_var = None
-    n_paths = 0
-    for p, env in ps:
-        if p[-1] is not head:
-            continue
-        n_paths += 1
-        ev = env.get('#ev', ())
-        pending = None
-        stored = False
-        for e in ev:
-            if e[0] == 'store':
-                stored = True
-            elif e[0] == 'step':
-                if e[1] == '1':
-                    if not stored:
-                        unstored.append((p, e))
-                    stored = False
+    def run(stmts, st, k):
+        if not stmts:
+            return k(st)
+        s0, rest = stmts[0], stmts[1:]
+        if isinstance(s0, ast.If):
+            tv_ = struth(s0.test, st)
+            for outcome in ((True, False) if tv_ is None else (tv_,)):
+                s2 = clone(st)
+                learn(s0.test, outcome, s2)
+                run((s0.body if outcome else s0.orelse) + rest, s2, k)
+            return
+        if isinstance(s0, ast.While):
+            n_ = st['loops'].get(id(s0), 0)
+            # leave
+            s2 = clone(st)
+            learn(s0.test, False, s2)
+            s2['loops'][id(s0)] = 0
+            run(rest, s2, k)
+            if n_ < 2:
+                s3 = clone(st)
+                learn(s0.test, True, s3)
+                s3['loops'][id(s0)] = n_ + 1
+                run(list(s0.body) + [s0] + rest, s3, k)
+            return
+        if isinstance(s0, ast.Continue):
+            results.append((st, 'next'))
+            return
+        if isinstance(s0, (ast.Break, ast.Return)):
+            results.append((st, 'exit'))
+            return
+        if isinstance(s0, ast.Raise):
+            return
+        if isinstance(s0, (ast.Assign, ast.AugAssign)):
+            tgt = s0.targets[0] if isinstance(s0, ast.Assign) else s0.target
+            tn = norm(tgt)
+            val = s0.value
+            if isinstance(s0, ast.AugAssign):
+                if not isinstance(s0.op, (ast.Add, ast.Sub)):
+                    raise Undecided('statement %s' % short(s0))
+                val = ast.BinOp(left=tgt, op=s0.op, right=s0.value)
+            if isinstance(val, ast.Call) and call_name(val) == 'AnsiControlSequence' and len(val.args) == 2 and isinstance(tgt, ast.Name):
+                st['objs'] = dict(st.get('objs', {}))
+                st['objs'][tn] = (sval(val.args[0], st, s0), sval(val.args[1], st, s0))
+                return run(rest, st, k)
+            if isinstance(val, ast.Call) and call_name(val) == 'len' and len(val.args) == 1 and isinstance(val.args[0], ast.Attribute) and isinstance(tgt, ast.Name):
+                st['keys'] = dict(st.get('keys', {}))
+                st['keys'][tn] = norm(val)
+                return run(rest, st, k)
+            # integer or string?
+            is_int = tn == cur or tn in st['ints']
+            if not is_int and tn not in st['strs']:
+                try:
+                    v_ = ival(val, st)
+                    is_int = True
+                except Undecided:
+                    is_int = False
+            if is_int:
+                v_ = ival(val, st)
+                if tn == cur:
+                    st['cur'] = v_
                 else:
-                    csi_len = e[1]
-                    stored = False
-            elif e[0] == 'jump':
-                unstored.append((p, e))
-    R.check(not unstored, f, outer, 'on all %d paths through one scan iteration every single-character step is preceded by storing that character' % n_paths,
-            'the cursor steps over a character that was not stored (L%s %s)' % (unstored[0][1][-1], unstored[0][1][0]) if unstored else '',
-            construct='step stores', witness=_path_text(unstored[0][0], 16) if unstored else None)
-    # CSI branch
-    csi_if = next((n for n in outer.body if isinstance(n, ast.If)), None)
-    cons = 'CSI test'
-    ok = False
-    if csi_if is not None and isinstance(csi_if.test, ast.Compare) and isinstance(csi_if.test.ops[0], ast.Eq):
-        l, r = csi_if.test.left, csi_if.test.comparators[0]
-        if not _fold_is(F, r, '\x1b['):
-            l, r = r, l
-        if _fold_is(F, r, '\x1b[') and isinstance(l, ast.Subscript) and isinstance(l.slice, ast.Slice) and norm(l.value) == s and \
-                norm(l.slice.lower) == cur and canon(l.slice.upper, ali) == '%s + len(%s)' % (cur, norm(r)):
-            ok = True
-            first = csi_if.body[0]
-            ok = isinstance(first, ast.AugAssign) and norm(first.target) == cur and canon(first.value, ali) == 'len(%s)' % norm(r)
-    R.check(ok, f, csi_if or outer, 'a sequence starts exactly where s[i:i+len(CSI)] == CSI, and the cursor then skips len(CSI)', construct=cons)
-    if csi_if is None:
-        return
-    # plain character branch: text += s[i]; i += 1
-    plain = csi_if.orelse
-    cons = 'plain character'
-    okp = len(plain) == 2 and isinstance(plain[0], ast.AugAssign) and norm(plain[0].value) == si and \
-        isinstance(plain[1], ast.AugAssign) and norm(plain[1].target) == cur and const_val(plain[1].value) == 1
-    if okp:
-        text_attr = norm(plain[0].target)
-    R.check(okp, f, plain[0] if plain else csi_if, 'any other character is appended to the text, then the cursor moves by 1', construct=cons)
-    # parameter scan
-    inner = next((n for n in csi_if.body if isinstance(n, ast.While)), None)
-    cons = 'parameter scan'
-    if inner is None:
-        R.viol(f, csi_if, 'no parameter scan loop', construct=cons)
-        return
-    okb = len(inner.body) == 2 and isinstance(inner.body[0], ast.AugAssign) and norm(inner.body[0].value) == si and \
-        isinstance(inner.body[1], ast.AugAssign) and norm(inner.body[1].target) == cur and const_val(inner.body[1].value) == 1
-    if okb:
-        param_acc = norm(inner.body[0].target)
-    R.check(okb, f, inner, 'parameter bytes are appended before each step', construct=cons)
-    # terminator save
-    term_if = next((n for n in csi_if.body if isinstance(n, ast.If) and any(isinstance(x, ast.Assign) and norm(x.value) == si for x in n.body)), None)
-    cons = 'final byte save'
-    okt = False
-    if term_if is not None:
-        b = term_if.body
-        okt = len(b) == 2 and isinstance(b[0], ast.Assign) and norm(b[0].value) == si and isinstance(b[1], ast.AugAssign) and \
-            norm(b[1].target) == cur and const_val(b[1].value) == 1 and norm(term_if.test) == '%s < len(%s)' % (cur, s)
-        if okt:
-            term_var = norm(b[0].targets[0])
-            pre = [x for x in csi_if.body[:csi_if.body.index(term_if)] if isinstance(x, ast.Assign) and norm(x.targets[0]) == term_var]
-            okt = bool(pre) and const_val(pre[-1].value, None) == ''
-    R.check(okt, f, term_if or csi_if, 'the final byte is saved before its step; empty when the input ends first', construct=cons)
-    # accept test truth table
-    acc_if = next((n for n in csi_if.body if isinstance(n, ast.If) and any(call_name(x) == 'AnsiControlSequence' for x in ast.walk(n))), None)
-    cons = 'accept condition'
-    if acc_if is None or term_var is None:
-        R.undecided(f, csi_if, 'record / put-back split not found', construct=cons)
-    else:
-        bad = []
-        for state in ('empty', 'acc', 'nonacc'):
-            for al in (True, False):
-                for given in (True, False):
-                    nonempty = state != 'empty'
-                    in_acc = state in ('acc', 'empty')   # '' in 'm' is True in Python
-                    extra = {term_var: nonempty, 'not ' + term_var: not nonempty,
-                             '%s is None' % acc: not given, '%s is not None' % acc: given}
-                    if given:
-                        extra['%s in %s' % (term_var, acc)] = in_acc
-                        extra['%s not in %s' % (term_var, acc)] = not in_acc
-                    val = flag_valuation({allow: al}, extra)
-                    got = eval_guard(acc_if.test, val)
-                    want = (nonempty or al) and ((not given) or in_acc)
-                    # atoms that Python evaluates must be defined: `x in None` would be a TypeError
-                    if not given:
-                        for a in evaluated_atoms(acc_if.test, val):
-                            if isinstance(a, ast.Compare) and isinstance(a.ops[0], (ast.In, ast.NotIn)) and norm(a.comparators[0]) == acc:
-                                got = 'TypeError (membership test on None)'
-                    if got != want:
-                        bad.append('final byte %s, allow_empty=%s, acceptable %s: %s, expected %s' % (state, al, 'given' if given else 'None', got, want))
-        R.check(not bad, f, acc_if, 'recorded iff (final byte or allow_empty) and (acceptable is None or final byte in acceptable)',
-                '; '.join(bad[:3]) + (' (+%d more)' % (len(bad) - 3) if len(bad) > 3 else ''), construct=cons)
-        # record arm
-        cons = 'record arm'
-        rec = [x for x in ast.walk(acc_if) if isinstance(x, ast.Call) and call_name(x) == 'AnsiControlSequence']
-        problems = []
-        if [norm(a) for a in rec[0].args] != [param_acc, term_var]:
-            problems.append('recorded as AnsiControlSequence(%s), expected (%s, %s)' % (', '.join(norm(a) for a in rec[0].args), param_acc, term_var))
-        arm = acc_if.body if any(rec[0] in ast.walk(x) for x in acc_if.body) else acc_if.orelse
-        other = acc_if.orelse if arm is acc_if.body else acc_if.body
-        # where the record goes: under key len(text so far), appended to (or starting) the list of that key
-        arm_al = dict(ali)
-        for x in arm:
-            if isinstance(x, ast.Assign) and isinstance(x.targets[0], ast.Name):
-                arm_al[x.targets[0].id] = x.value
-        keys_used = set()
-        appended = 0
-        und = False
-        for x in ast.walk(ast.Module(body=arm, type_ignores=[])):
-            if isinstance(x, ast.Call) and call_name(x) == 'append' and isinstance(x.func, ast.Attribute):
-                recv = x.func.value
-                if isinstance(recv, ast.Subscript):
-                    keys_used.add(canon(recv.slice, arm_al))
-                    appended += 1
-                elif isinstance(recv, ast.Call) and call_name(recv) == 'setdefault' and len(recv.args) == 2 and isinstance(recv.args[1], ast.List) and not recv.args[1].elts:
-                    keys_used.add(canon(recv.args[0], arm_al))
-                    appended += 2      # append-or-create in one
-                else:
-                    und = True
-            elif isinstance(x, ast.Assign) and isinstance(x.targets[0], ast.Subscript) and isinstance(x.value, ast.List) and len(x.value.elts) == 1:
-                keys_used.add(canon(x.targets[0].slice, arm_al))
-                appended += 1
-        if und or not text_attr:
-            R.undecided(f, acc_if, 'how the recorded sequence is stored is not recognised', construct=cons)
+                    st['ints'][tn] = v_
+                return run(rest, st, k)
+            if isinstance(tgt, ast.Subscript):
+                # self.sequences[key] = [record]
+                return run(rest, note_record(s0, st, key=tgt.slice), k)
+            before = list(st['strs'].get(tn, [('BASE', tn)] if tn in pre_strs else []))
+            pieces = sval(val, st, s0)
+            st['strs'][tn] = pieces
+            if tn in pre_strs:
+                # the text accumulator (kept across iterations): what this iteration adds to it
+                text_names.add(tn)
+                if pieces[:len(before)] != before:
+                    raise Undecided('the text is rebuilt, not extended: %s' % short(s0))
+                st['text'].extend(pieces[len(before):])
+            return run(rest, st, k)
+        if isinstance(s0, ast.Expr):
+            if isinstance(s0.value, ast.Constant):
+                return run(rest, st, k)
+            return run(rest, note_record(s0, st), k)
+        raise Undecided('statement %s' % short(s0))
+
+    def note_record(stn, st, key=None):
+        rec = [x for x in ast.walk(stn) if isinstance(x, ast.Call) and call_name(x) == 'AnsiControlSequence']
+        objs = st.get('objs', {})
+        used = [x.id for x in ast.walk(stn) if isinstance(x, ast.Name) and x.id in objs]
+        if not rec and not used:
+            return st
+        if rec:
+            c_ = rec[0]
+            if len(c_.args) != 2:
+                raise Undecided('record %s' % short(c_))
+            pr_, tm_ = sval(c_.args[0], st, stn), sval(c_.args[1], st, stn)
         else:
-            if keys_used != {'len(%s)' % text_attr}:
-                problems.append('the record key is %s, expected len(text so far)' % sorted(keys_used))
-            if appended != 2:
-                problems.append('the sequence is not appended to an existing list / started as a new list under its key')
-            R.check(not problems, f, acc_if, 'recorded with (parameters, final byte) under key len(text so far), in order', '; '.join(problems), construct=cons)
-        cons = 'put-back arm'
-        pb = [x for x in other if isinstance(x, ast.AugAssign) and norm(x.target) == text_attr]
-        okpb = False
-        if pb:
-            parts = flatten_add(pb[0].value)
-            okpb = len(parts) == 3 and _fold_is(F, parts[0], '\x1b[') and norm(parts[1]) == param_acc and norm(parts[2]) == term_var and len(other) == 1
-        R.check(okpb, f, pb[0] if pb else acc_if, 'otherwise CSI + parameters + final byte go back into the text, in that order',
-                'put-back is %s' % (short(pb[0].value) if pb else 'missing'), construct=cons)
-    # every s[i] is dominated by i < len(s)
-    cons = 'index guard'
+            pr_, tm_ = objs[used[0]]
+        keyx = key
+        for x in ast.walk(stn):
+            if isinstance(x, ast.Call) and call_name(x) == 'setdefault' and x.args:
+                keyx = x.args[0]
+            elif isinstance(x, ast.Call) and call_name(x) == 'append' and isinstance(x.func.value, ast.Subscript):
+                keyx = x.func.value.slice
+        ktxt = None
+        if keyx is not None:
+            ktxt = st.get('keys', {}).get(norm(keyx), cn(keyx))
+            try:
+                kv = ival(keyx, st)
+                names_ = [k_[2:] for k_ in kv.t if k_.startswith('K:')]
+                if len(names_) == 1:
+                    # a position counter: its value now, relative to the start of the iteration
+                    ktxt = ('counter', names_[0], kv - Sym({'K:' + names_[0]: 1}), plen(st['text']))
+            except Undecided:
+                pass
+        st['records'].append((pr_, tm_, ktxt, len(st['text'])))
+        return st
+    st0 = {'cur': Sym({'c': 1}), 'ints': {}, 'strs': {}, 'lt_len': {Sym({'c': 1}).key()}, 'csi_at': set(), 'text': [], 'records': [], 'loops': {}}
+    # string locals that exist before the loop start empty as far as this iteration is concerned (the text attribute too)
     try:
-        ps2 = paths(cfg, cfg.entry, lambda nd: False, max_visits=2, limit=300000)
-    except PathExplosion:
-        ps2 = []
-    # cheaper: per node check through enumerated prefixes
-    unguarded = []
-    guard_txt = '%s < len(%s)' % (cur, s)
-    checked = 0
-    for nd in cfg.nodes:
-        holder = nd.stmt if nd.kind in ('stmt',) else None
-        if holder is None:
+        run(list(outer.body), st0, lambda st_: results.append((st_, 'next')))
+    except Undecided as ex:
+        R.undecided(f, outer, 'scan iteration not interpreted: %s' % ex, construct='token conservation')
+        return
+    except RecursionError:
+        R.undecided(f, outer, 'scan iteration too deep', construct='token conservation')
+        return
+    # ---- verdicts
+    counters_used = set()
+    kinds = {'plain': [], 'recorded': [], 'put back': []}
+    problems = {'plain': [], 'recorded': [], 'put back': []}
+    C = Sym({'c': 1})
+    for st_, how in results:
+        if how != 'next':
             continue
-        if not any(isinstance(x, ast.Subscript) and norm(x) == si for x in ast.walk(holder)):
-            continue
-        checked += 1
-        pp = paths(cfg, cfg.entry, lambda n2, nd=nd: n2 is nd, max_visits=2, limit=300000)
-        for p, env in pp:
-            if p[-1] is nd and env.get(guard_txt) is not True:
-                unguarded.append((p, nd))
-                break
-    R.check(not unguarded and checked >= 3, f, outer, 'each of the %d reads of %s happens under %s with no step in between' % (checked, si, guard_txt),
-            'a read of %s at L%d is not covered by %s on some path (IndexError at the end of the input)' % (si, unguarded[0][1].line if unguarded else 0, guard_txt),
-            construct=cons, witness=_path_text(unguarded[0][0], 12) if unguarded else None)
+        end = st_['cur']
+        if st_['records']:
+            kind = 'recorded'
+            params, term, key, ntext = st_['records'][0]
+            seq = [('CSI',)] + params + term
+            if st_['text']:
+                problems[kind].append('text is added in the same iteration that records a sequence')
+            if len(st_['records']) != 1:
+                problems[kind].append('%d sequences recorded in one iteration' % len(st_['records']))
+            tn_ = sorted(text_names)[0] if text_names else None
+            if isinstance(key, tuple) and key[0] == 'counter':
+                counters_used.add(key[1])
+                if key[2] != key[3]:
+                    problems[kind].append('the record key %s has advanced by %r in this iteration while the text grew by %r' % (key[1], key[2], key[3]))
+            elif key is None or tn_ is None or key != 'len(%s)' % tn_:
+                problems[kind].append('the record key is %s, expected the length of the text so far' % (key,))
+        else:
+            seq = list(st_['text'])
+            kind = 'put back' if any(p_ == ('CSI',) for p_ in seq) or (end - C).t.get('LCSI') else 'plain'
+        kinds[kind].append(st_)
+        pos = C
+        ok = True
+        for p_ in seq:
+            if p_ == ('CSI',):
+                if pos.key() not in st_['csi_at']:
+                    problems[kind].append('the introducer is assumed at a position where it was not matched')
+                    ok = False
+                pos = pos + LC
+            else:
+                if p_[1] != pos:
+                    problems[kind].append('the stored pieces skip or repeat input: a piece starts at %r where %r is expected (c = cursor at the start of the iteration)' % (p_[1], pos))
+                    ok = False
+                pos = p_[2]
+        if ok and pos != end:
+            problems[kind].append('the cursor ends at %r but the stored pieces end at %r: %s' % (end, pos, 'input is dropped' if True else ''))
+        if end == C:
+            problems[kind].append('an iteration leaves the cursor where it was (the scan would not terminate)')
+    desc = {'plain': 'a character that does not start a sequence is copied to the text and the cursor moves past it',
+            'recorded': 'a recorded sequence consists of exactly the input between the introducer and the cursor (parameters, then the final byte), under the key len(text)',
+            'put back': 'a sequence that is not accepted goes back into the text whole: introducer, parameters, final byte'}
+    for kind in ('plain', 'recorded', 'put back'):
+        cons = 'conservation: ' + kind
+        if not kinds[kind]:
+            R.viol(f, outer, 'no path through the scan handles the case "%s"' % kind, construct=cons)
+        else:
+            pr_ = sorted(set(problems[kind]))
+            R.check(not pr_, f, outer, desc[kind] + ' (%d paths)' % len(kinds[kind]), '; '.join(pr_[:2]), construct=cons)
+    for cname in sorted(counters_used):
+        # loop invariant of a position counter used as record key: counter == length of the text, preserved by every iteration
+        drift = None
+        for st_, how in results:
+            if how != 'next':
+                continue
+            kend = st_['ints'].get(cname, Sym({'K:' + cname: 1})) - Sym({'K:' + cname: 1})
+            grown = plen(st_['text'])
+            if kend != grown and drift is None:
+                drift = (kend, grown)
+        R.check(drift is None, f, outer, 'the position counter %s grows exactly as the text does in every iteration' % cname,
+                'in some iteration the text grows by %r characters but the position counter %s by %r: sequences recorded afterwards are keyed at the wrong position '
+                '(c = cursor at the start of the iteration, LCSI = length of the introducer)' % (drift[1] if drift else '', cname, drift[0] if drift else ''),
+                construct='position counter')
+    R.check(not reads_unguarded, f, outer, 'every read of a single input character is covered by a `< len(%s)` test at that position' % s,
+            'the read %s is not covered by a `< len(%s)` test on some path (IndexError at the end of the input)' % (reads_unguarded[0][1] if reads_unguarded else '', s),
+            construct='index guard')
+    # ---- accept condition: truth table
+    acc_if = next((n for n in ast.walk(outer) if isinstance(n, ast.If) and any(call_name(x) == 'AnsiControlSequence' for x in ast.walk(n)) and
+                   (acc in names_in(n.test) or allow in names_in(n.test))), None)
+    cons = 'accept condition'
+    rec_call = next((x for x in ast.walk(outer) if isinstance(x, ast.Call) and call_name(x) == 'AnsiControlSequence' and len(x.args) == 2), None)
+    term_var = norm(rec_call.args[1]) if rec_call is not None and isinstance(rec_call.args[1], ast.Name) else None
+    if acc_if is None or term_var is None:
+        R.undecided(f, outer, 'record / put-back split not found', construct=cons)
+        return
+    rec_in_body = any(rec_call is x for b_ in acc_if.body for x in ast.walk(b_))
+    bad = []
+    for state in ('empty', 'acc', 'nonacc'):
+        for al in (True, False):
+            for given in (True, False):
+                nonempty = state != 'empty'
+                in_acc = state in ('acc', 'empty')   # '' in 'm' is True in Python
+                extra = {term_var: nonempty, 'not ' + term_var: not nonempty,
+                         '%s is None' % acc: not given, '%s is not None' % acc: given}
+                if given:
+                    extra['%s in %s' % (term_var, acc)] = in_acc
+                    extra['%s not in %s' % (term_var, acc)] = not in_acc
+                val = flag_valuation({allow: al}, extra)
+                got = eval_guard(acc_if.test, val)
+                if got is not None and not rec_in_body:
+                    got = not got
+                want = (nonempty or al) and ((not given) or in_acc)
+                if not given:
+                    for a in evaluated_atoms(acc_if.test, val):
+                        if isinstance(a, ast.Compare) and isinstance(a.ops[0], (ast.In, ast.NotIn)) and norm(a.comparators[0]) == acc:
+                            got = 'TypeError (membership test on None)'
+                if got != want:
+                    bad.append('final byte %s, allow_empty=%s, acceptable %s: %s, expected %s' % (state, al, 'given' if given else 'None', got, want))
+    R.check(not bad, f, acc_if, 'recorded iff (final byte or allow_empty) and (acceptable is None or final byte in acceptable)',
+            '; '.join(bad[:3]) + (' (+%d more)' % (len(bad) - 3) if len(bad) > 3 else ''), construct=cons)
 
 
 @rule('F1', 'term-range: the byte classes of AnsiSetting.valid and of the tokenizer are exactly [0x40, 0x7E]', floor=2)
